@@ -31,7 +31,7 @@ REQUIRED_COVERS = ["death_replaced", "reload_all", "shutdown", "budget_exit", "t
 
 
 def bounds(tier: str) -> Dict[str, Any]:
-    return {"workers": "1..3", "ticks": "quick: 4 (W<=2), 3 (W=3); thorough: 6 (W=1), 5 (W=2), 4 (W=3)", "max_fails": "unbounded Int"}
+    return {"workers": "1..3", "ticks": "quick: 4 (W<=2), 3 (W=3); thorough: 6 (W=1), 5 (W=2), 3 (W=3); early-death cases 5 (W=1), 4 (W=2)", "max_fails": "unbounded Int"}
 
 
 def cases(tier: str) -> List[Any]:
@@ -43,7 +43,7 @@ def cases(tier: str) -> List[Any]:
         for first in range(len(_pm.SIGNAL_OPTS)):
             out.append({"workers": 2, "depth": 3, "first": first, "early": True})
     else:
-        for w, d in ((1, 6), (2, 5), (3, 4)):
+        for w, d in ((1, 6), (2, 5), (3, 3)):
             for first in range(len(_pm.SIGNAL_OPTS)):
                 out.append({"workers": w, "depth": d, "first": first})
         for w, d in ((1, 5), (2, 4)):
